@@ -339,6 +339,14 @@ qb_ipcc_recv(struct qb_ipcc_connection * c, void *msg_ptr,
 		return -EINVAL;
 	}
 
+	if (!c->is_connected) {
+		/*
+		 * the peer is known to be gone: hand out what may still be
+		 * queued, but do not wait for anything to arrive from it
+		 */
+		ms_timeout = 0;
+	}
+
 	res = c->funcs.recv(&c->response, msg_ptr, msg_len, ms_timeout);
 	if (res >= 0) {
 		return res;
